@@ -237,6 +237,22 @@ class _Canon(ast.NodeTransformer):
                     r = self.visit_Assign(a)
                     out.extend(r if isinstance(r, list) else [r])
                 return out
+        # `x = [comprehension] or [fallback]`  ->  `x = [comprehension]` / `if len(x) == 0: x = [fallback]` (a list is false iff it is empty)
+        if len(n.targets) == 1 and isinstance(n.targets[0], ast.Name) and isinstance(n.value, ast.BoolOp) and isinstance(n.value.op, ast.Or) \
+                and len(n.value.values) == 2 and isinstance(n.value.values[0], ast.ListComp) and isinstance(n.value.values[1], ast.List) \
+                and not any(isinstance(x, ast.Name) and x.id == n.targets[0].id for x in ast.walk(n.value)):
+            nm = n.targets[0].id
+            first = ast.copy_location(ast.Assign(targets=[ast.Name(id=nm, ctx=ast.Store())], value=n.value.values[0]), n)
+            empty = ast.Compare(left=ast.Call(func=ast.Name(id="len", ctx=ast.Load()), args=[ast.Name(id=nm, ctx=ast.Load())], keywords=[]),
+                                ops=[ast.Eq()], comparators=[ast.Constant(value=0)])
+            second = ast.If(test=empty, body=[ast.Assign(targets=[ast.Name(id=nm, ctx=ast.Store())], value=n.value.values[1])], orelse=[])
+            for x in ast.walk(second):
+                if isinstance(x, (ast.expr, ast.stmt)) and not hasattr(x, "lineno"):
+                    ast.copy_location(x, n)
+            ast.copy_location(second, n)
+            ast.fix_missing_locations(second)
+            r1 = self.visit_Assign(first)
+            return (r1 if isinstance(r1, list) else [r1]) + [self.visit(second)]
         # `x = a if c else b`  ->  `if c: x = a` / `else: x = b`  (a conditional expression that is the whole right-hand side)
         if isinstance(n.value, ast.IfExp) and len(n.targets) == 1 and isinstance(n.targets[0], ast.Name):
             def asg(v):
